@@ -1,12 +1,13 @@
 ---------------------------- MODULE DispatchModel ----------------------------
 (* Design-level model for C18 dispatch: histories of Create / Enable / Disable / OneShot / Free /
-   SetFunc / SetPerm / CmdPeriod / Recv over a few responders, with the invariants named in the
+   SetFunc / SetPerm / CmdPeriod / Recv over a few responders whose callbacks may RAISE and may free /
+   disable / enable responders (themselves included) from inside, with the invariants named in the
    property.  Its behaviours are also replayed on the real responders (S->C): `op` holds the last
    operation, `last` the delivery log the spec expects for it.                              *)
 EXTENDS Dispatch
 CONSTANTS MaxResp, MaxRecv, MaxOps, Rich
-VARIABLES st, op, last, nrecv, nops, osf
-vars == <<st, op, last, nrecv, nops, osf>>
+VARIABLES st, op, last, nrecv, nops, spent
+vars == <<st, op, last, nrecv, nops, spent>>
 
 A == <<47, 97>>          \* /a
 AB == <<47, 97, 98>>     \* /ab
@@ -14,41 +15,51 @@ I(n) == [t |-> "i", hi |-> 0, lo |-> n]
 AnySrc == [h |-> 0, p |-> 0]
 H1 == [h |-> 1, p |-> 0]          \* host 1, any port
 H1P == [h |-> 1, p |-> 5001]
-Senders == {[h |-> 1, p |-> 5001], [h |-> 1, p |-> 5002]} \cup (IF Rich THEN {[h |-> 2, p |-> 5001]} ELSE {})
+Senders == {[h |-> 1, p |-> 5001]} \cup (IF Rich THEN {[h |-> 1, p |-> 5002], [h |-> 2, p |-> 5001]} ELSE {})
+Vias == IF Rich THEN {1, 2} ELSE {1}
 \* filter profiles: none, sender host+port, receive port, argument template
-Profiles == {[src |-> AnySrc, rport |-> 0, tmpl |-> <<>>], [src |-> H1P, rport |-> 2, tmpl |-> <<[k |-> "eq", v |-> I(1)]>>]}
-            \cup (IF Rich THEN {[src |-> H1P, rport |-> 0, tmpl |-> <<>>], [src |-> AnySrc, rport |-> 2, tmpl |-> <<>>],
+Profiles == {[src |-> AnySrc, rport |-> 0, tmpl |-> <<>>]}
+            \cup (IF Rich THEN {[src |-> H1P, rport |-> 2, tmpl |-> <<[k |-> "eq", v |-> I(1)]>>],
+                                [src |-> H1P, rport |-> 0, tmpl |-> <<>>], [src |-> AnySrc, rport |-> 2, tmpl |-> <<>>],
                                 [src |-> AnySrc, rport |-> 0, tmpl |-> <<[k |-> "eq", v |-> I(1)]>>],
                                 [src |-> H1, rport |-> 0, tmpl |-> <<[k |-> "any"], [k |-> "gt", n |-> 5]>>]} ELSE {})
-Creates == {[op |-> "create", kind |-> k, path |-> p, src |-> f.src, rport |-> f.rport, tmpl |-> f.tmpl, os |-> FALSE] :
-               k \in {"exact", "matching"}, p \in {A, AB}, f \in Profiles}
+\* callback behaviours: quiet, raising on the 1st / 2nd invocation, freeing / disabling / enabling a responder
+\* (possibly itself) from inside the callback, and combinations
+Act(o, i) == [op |-> o, i |-> i]
+Beh(rk, acts) == [rk |-> rk, acts |-> acts]
+Behs == {Quiet, Beh(1, <<>>), Beh(0, <<Act("free", 1)>>), Beh(1, <<Act("disable", 2)>>)}
+        \cup (IF Rich THEN {Beh(2, <<>>), Beh(0, <<Act("enable", 1)>>), Beh(0, <<Act("free", 2)>>), Beh(0, <<Act("disable", 3)>>),
+                            Beh(1, <<Act("enable", 2), Act("free", 1)>>), Beh(2, <<Act("free", 3)>>)} ELSE {})
+Creates == {[op |-> "create", kind |-> k, path |-> p, src |-> f.src, rport |-> f.rport, tmpl |-> f.tmpl, os |-> FALSE, beh |-> b] :
+               k \in {"exact", "matching"}, p \in {A, AB}, f \in Profiles, b \in Behs}
 \* message addresses: literal, wildcard forms, a prefix of /ab, a malformed pattern
 MAddrs == {A, AB, <<47, 42>>, <<47, 97, 63>>} \cup
           (IF Rich THEN {<<47, 91, 97, 93>>, <<47, 123, 97, 44, 97, 98, 125>>, <<47, 91, 97>>} ELSE {})
 Msgs == {[tag |-> <<>>, a |-> a, args |-> ar] : a \in MAddrs, ar \in {<<>>, <<I(1)>>} \cup (IF Rich THEN {<<I(0), I(9)>>} ELSE {})}
 
 Init == /\ st = [rs |-> <<>>, ord |-> <<>>] /\ op = [op |-> "init"] /\ last = <<>>
-        /\ nrecv = 0 /\ nops = 0 /\ osf = <<>>
+        /\ nrecv = 0 /\ nops = 0 /\ spent = {}
 Do(e, s2) == /\ st' = s2 /\ op' = e /\ last' = <<>> /\ nops' = nops + 1 /\ nops < MaxOps
-             /\ UNCHANGED nrecv
+             /\ UNCHANGED <<nrecv, spent>>
 Create == /\ Len(st.rs) < MaxResp
           /\ \E e \in Creates : Do(e, OpCreate(st, e))
-          /\ osf' = Append(osf, 0)
 R == 1..Len(st.rs)
-Enable == \E i \in R : ~st.rs[i].freed /\ ~st.rs[i].en /\ Do([op |-> "enable", i |-> i], OpEnable(st, i)) /\ UNCHANGED osf
-Disable == \E i \in R : st.rs[i].en /\ Do([op |-> "disable", i |-> i], OpDisable(st, i)) /\ UNCHANGED osf
-Free == \E i \in R : ~st.rs[i].freed /\ Do([op |-> "free", i |-> i], OpFree(st, i)) /\ UNCHANGED osf
-OneShot == \E i \in R : ~st.rs[i].freed /\ ~st.rs[i].os /\ Do([op |-> "oneshot", i |-> i], OpOneShot(st, i)) /\ UNCHANGED osf
-SetFunc == \E i \in R : ~st.rs[i].freed /\ st.rs[i].fn < 1
-              /\ Do([op |-> "setfunc", i |-> i, fn |-> st.rs[i].fn + 1], OpSetFunc(st, i, st.rs[i].fn + 1)) /\ UNCHANGED osf
-SetPerm == \E i \in R : st.rs[i].en /\ ~st.rs[i].perm /\ Do([op |-> "setperm", i |-> i, b |-> TRUE], OpSetPerm(st, i, TRUE)) /\ UNCHANGED osf
-CmdPeriod == st.rs # <<>> /\ Do([op |-> "cmdperiod"], OpCmdPeriod(st)) /\ UNCHANGED osf
+Enable == \E i \in R : ~st.rs[i].freed /\ ~st.rs[i].en /\ Do([op |-> "enable", i |-> i], OpEnable(st, i))
+Disable == \E i \in R : st.rs[i].en /\ Do([op |-> "disable", i |-> i], OpDisable(st, i))
+Free == \E i \in R : ~st.rs[i].freed /\ Do([op |-> "free", i |-> i], OpFree(st, i))
+OneShot == \E i \in R : ~st.rs[i].freed /\ ~st.rs[i].os /\ Do([op |-> "oneshot", i |-> i], OpOneShot(st, i))
+SetFunc == \E i \in R, b \in {Quiet, Beh(1, <<>>)} : ~st.rs[i].freed /\ st.rs[i].fn < 1
+              /\ Do([op |-> "setfunc", i |-> i, fn |-> st.rs[i].fn + 1, beh |-> b], OpSetFunc(st, i, st.rs[i].fn + 1, b))
+SetPerm == \E i \in R : st.rs[i].en /\ ~st.rs[i].perm /\ Do([op |-> "setperm", i |-> i, b |-> TRUE], OpSetPerm(st, i, TRUE))
+CmdPeriod == st.rs # <<>> /\ Do([op |-> "cmdperiod"], OpCmdPeriod(st))
 Recv == /\ nrecv < MaxRecv /\ nops < MaxOps /\ st.rs # <<>>
-        /\ \E m \in Msgs, s \in Senders, via \in {1, 2} :
+        /\ \E m \in Msgs, s \in Senders, via \in Vias :
               LET d == Deliver(st, <<m>>, 1, s, via, <<>>) IN
               /\ st' = d.st /\ last' = d.log
               /\ op' = [op |-> "recv", m |-> m, src |-> s, via |-> via]
-              /\ osf' = [i \in 1..Len(osf) |-> osf[i] + (IF st.rs[i].os /\ \E k \in 1..Len(d.log) : d.log[k].r = i THEN 1 ELSE 0)]
+              \* a one-shot that fired is spent - until somebody enables it again
+              /\ spent' = {i \in 1..Len(st.rs) : (i \in spent \/ (st.rs[i].os /\ \E k \in 1..Len(d.log) : d.log[k].r = i))
+                                                  /\ ~d.st.rs[i].en}
         /\ nrecv' = nrecv + 1 /\ nops' = nops + 1
 Next == Create \/ Enable \/ Disable \/ Free \/ OneShot \/ SetFunc \/ SetPerm \/ CmdPeriod \/ Recv
 Spec == Init /\ [][Next]_vars
@@ -56,8 +67,14 @@ Spec == Init /\ [][Next]_vars
 \* the property's named invariants; `last` is the log of the delivery just made (state before it: unprimed)
 FreedNeverFires == [][\A k \in 1..Len(last') : ~st.rs[last'[k].r].freed]_vars
 DisabledNeverFires == [][\A k \in 1..Len(last') : st.rs[last'[k].r].en]_vars
-OneShotOnce == \A i \in 1..Len(osf) : osf[i] <= 1
-FiredOneShotIsFreed == \A i \in 1..Len(osf) : osf[i] = 1 => st.rs[i].freed \/ ~st.rs[i].os
+\* "already-fired one-shot responders are never invoked" - also when their callback raised
+SpentNeverFires == [][\A k \in 1..Len(last') : last'[k].r \notin spent]_vars
+SpentNotEnabled == \A i \in spent : ~st.rs[i].en
+EnablesOf(s, log) == UNION {{s.rs[log[k].r].beh.acts[j].i : j \in {j \in 1..Len(s.rs[log[k].r].beh.acts) : s.rs[log[k].r].beh.acts[j].op = "enable"}}
+                            : k \in 1..Len(log)}
+FiredOneShotGone == [][\A k \in 1..Len(last') :
+                          LET i == last'[k].r IN
+                          (st.rs[i].os /\ i \notin EnablesOf(st, last')) => (st'.rs[i].freed /\ ~st'.rs[i].en)]_vars
 EachOnce == \A j, k \in 1..Len(last) : j # k => last[j].r # last[k].r
 OrderIsRegistrationOrder ==
     [][\A j, k \in 1..Len(last') : j < k =>
@@ -65,6 +82,20 @@ OrderIsRegistrationOrder ==
 \* firing one responder never removes another from the current delivery: the delivery is the whole Fire list
 NoRemovalDuringDelivery ==
     [][op'.op = "recv" => [k \in 1..Len(last') |-> last'[k].r] = Fire(st, op'.m, op'.src, op'.via)]_vars
+\* a fault in a callback is invisible: the same history with callbacks that never raise gives the same
+\* invocations and the same state
+NoRk(s) == [s EXCEPT !.rs = [i \in 1..Len(s.rs) |-> [s.rs[i] EXCEPT !.beh.rk = 0]]]
+FaultTransparent ==
+    [][op'.op = "recv" => LET q == Deliver(NoRk(st), <<op'.m>>, 1, op'.src, op'.via, <<>>) IN
+                          q.log = last' /\ q.st = NoRk(st')]_vars
+\* the model's delivery is one of the deliveries the observational judge (used on real traces) accepts
+SpecIsLegal ==
+    [][op'.op = "recv" =>
+          LET m == [tag |-> op'.m.tag, a |-> op'.m.a, args |-> op'.m.args, ctag |-> <<>>]
+              lg == [k \in 1..Len(last') |-> [r |-> last'[k].r, fn |-> last'[k].fn, a |-> last'[k].a, args |-> last'[k].args,
+                                               src |-> last'[k].src, via |-> last'[k].via, tm |-> <<>>, d |-> 1]]
+              j == Judge(st, <<m>>, op'.src, op'.via, lg) IN
+          j.why = "ok" /\ j.st = st']_vars
 OrdConsistent == /\ \A k \in 1..Len(st.ord) : st.rs[st.ord[k]].en /\ ~st.rs[st.ord[k]].freed
                  /\ \A i \in 1..Len(st.rs) : st.rs[i].en => \E k \in 1..Len(st.ord) : st.ord[k] = i
                  /\ \A j, k \in 1..Len(st.ord) : j # k => st.ord[j] # st.ord[k]
